@@ -433,10 +433,14 @@ func (e *Engine) evalIndex(s *State, c *SpecCtx, base, idx *SV) *SV {
 		return e.svOf(e.specLoad(s, c, a), u.Elem())
 	case *types.Map:
 		_, _, ks := e.mapNames(u)
+		// Go semantics: a missing key (or a nil map) yields the zero value
+		md, _, _ := e.mapNames(u)
+		hd := e.specHeap(s, c, md, "(Array Int (Array "+ks+" Bool))")
+		in := and(not(eq(base.V.L[0], "0")), app("select", app("select", hd, base.V.L[0]), idx.V.L[0]))
 		v := &Val{}
 		for _, lf := range e.leaves(u.Elem()) {
 			h := e.specHeap(s, c, e.mapValName(u, lf.Path), "(Array Int (Array "+ks+" "+lf.Sort+"))")
-			v.L = append(v.L, app("select", app("select", h, base.V.L[0]), idx.V.L[0]))
+			v.L = append(v.L, app("ite", in, app("select", app("select", h, base.V.L[0]), idx.V.L[0]), zeroOfSort(lf.Sort)))
 		}
 		return e.svOf(v, u.Elem())
 	case *types.Basic:
@@ -794,6 +798,41 @@ func (e *Engine) evalCall(s *State, c *SpecCtx, n *ast.CallExpr) *SV {
 	case "cclosed":
 		h := e.specHeap(s, c, "CX!", "(Array Int Bool)")
 		return svBool(app("select", h, arg(0).V.L[0]))
+	case "nsends", "sendchan", "sendval":
+		// channel sends of this path (plain sends and select cases that can send), trace ghosts
+		if c.AtCallSite {
+			panic(clauseNotApplicable{fname + " at call site"})
+		}
+		type snd struct{ ch, val, cond string; vt types.Type; vv *Val }
+		var sends []snd
+		for _, ev := range s.Trace {
+			switch ev.Kind {
+			case "send":
+				sends = append(sends, snd{ch: ev.Extra["chan"], vv: ev.Args[0], vt: ev.ArgTypes[0], cond: "true"})
+			case "select":
+				for k := 0; ev.Extra[fmt.Sprintf("sendchan%d", k)] != ""; k++ {
+					sends = append(sends, snd{ch: ev.Extra[fmt.Sprintf("sendchan%d", k)], vv: ev.Args[k], vt: ev.ArgTypes[k], cond: ev.Extra[fmt.Sprintf("sendcond%d", k)]})
+				}
+			}
+		}
+		if fname == "nsends" {
+			terms := []string{"0"}
+			for _, sd := range sends {
+				terms = append(terms, app("ite", sd.cond, "1", "0"))
+			}
+			if len(terms) == 1 {
+				return svInt("0")
+			}
+			return svInt(app("+", terms...))
+		}
+		k, _ := strconv.Atoi(n.Args[0].(*ast.BasicLit).Value)
+		if k >= len(sends) {
+			panic(clauseNotApplicable{fname})
+		}
+		if fname == "sendchan" {
+			return svInt(sends[k].ch)
+		}
+		return e.svOf(sends[k].vv, sends[k].vt)
 	case "lastcallarg":
 		// lastcallarg("callee key", i): i-th argument of the most recent call to that callee on this path
 		if c.AtCallSite {
